@@ -7,7 +7,7 @@ from __future__ import annotations
 
 import ast
 
-from ..model import AnalysisError, norm, FuncInfo
+from ..model import AnalysisError, norm, FuncInfo, call_name
 from ..consteval import FuncTok
 from ..cfg import CFG, solve, subnodes
 from ..callgraph import Resolver, arg_for_param
@@ -90,6 +90,29 @@ def _parents(fn):
     return par
 
 
+def certificate_params(repo) -> set:
+    """Names of parameters by which a caller certifies that the index was validated already: a parameter P of a function that runs a
+    raising index validator exactly under `if not P:` (today: `validated`)."""
+    out = set()
+    for fi in repo.all_funcs():
+        if isinstance(fi.node, ast.Lambda):
+            continue
+        ps = set(fi.params())
+        for n in ast.walk(fi.node):
+            if not isinstance(n, ast.If):
+                continue
+            t, neg = n.test, False
+            while isinstance(t, ast.UnaryOp) and isinstance(t.op, ast.Not):
+                neg = not neg
+                t = t.operand
+            if not (isinstance(t, ast.Name) and t.id in ps):
+                continue
+            arm = n.body if neg else n.orelse
+            if any(isinstance(c, ast.Call) and call_name(c) in VALIDATORS_ONE for st in arm for c in ast.walk(st)):
+                out.add(t.id)
+    return out
+
+
 class RawAnalysis:
     def __init__(self, ctx, rid):
         self.ctx = ctx
@@ -99,6 +122,10 @@ class RawAnalysis:
         self.queue = []
         self.n_uses = 0
         self._val = {}
+        self.certs = certificate_params(ctx.repo)
+        if not self.certs:
+            raise AnalysisError('no "already validated" certificate parameter found (anchor vanished)')
+        ctx.extra['validation_certificate_params'] = sorted(self.certs)
 
     def add(self, fi: FuncInfo, params, consts=None):
         """params: iterable of names (level RAW) or dict name -> level."""
@@ -107,7 +134,7 @@ class RawAnalysis:
         params = {p: l for p, l in params.items() if p in fi.params()}
         if not params:
             return
-        consts = {k: v for k, v in (consts or {}).items() if k in ('validated',)}
+        consts = {k: v for k, v in (consts or {}).items() if k in self.certs}
         k = (fi.key, tuple(sorted(params.items())), tuple(sorted(consts.items())))
         if k not in self.done:
             self.done.add(k)
@@ -155,7 +182,7 @@ class RawAnalysis:
                     if cp is None and uses[0] in x.args:
                         i = x.args.index(uses[0])
                         cp = eff[i] if i < len(eff) else None
-                    if cp and self.validates(cal, cp, {k: v for k, v in call_consts(x, cal, bound).items() if k == 'validated'},
+                    if cp and self.validates(cal, cp, {k: v for k, v in call_consts(x, cal, bound).items() if k in self.certs},
                                              _stack + (key,)):
                         blockers.add(n.id)
         eo = edge_ok_for_consts(consts)
@@ -210,7 +237,7 @@ class RawAnalysis:
                                     if cp is None and a in x.args:
                                         i = x.args.index(a)
                                         cp = eff[i] if i < len(eff) else None
-                                    cc = {k: v for k, v in call_consts(x, cal, bound).items() if k == 'validated'}
+                                    cc = {k: v for k, v in call_consts(x, cal, bound).items() if k in self.certs}
                                     if cp and self.validates(cal, cp, cc):
                                         new[a.id] = NEG
                                         break
@@ -279,8 +306,8 @@ class RawAnalysis:
                                 allp = ps + [a.arg for a in cal.node.args.kwonlyargs]
                                 if pname is not None and pname in allp:
                                     cc = call_consts(p, cal, bound)
-                                    v = cc.get('validated')
-                                    if v is not None and v[1] and 'validated' in allp and level == RAW:
+                                    v = next((cc[c] for c in self.certs if c in cc and c in allp and cc[c][1]), None)
+                                    if v is not None and level == RAW:
                                         why = ('passed together with a truthy `validated` argument: the callee skips its own '
                                                'index validation')
                                         fwd = False
@@ -344,7 +371,7 @@ class RawAnalysis:
                     while isinstance(t, ast.UnaryOp) and isinstance(t.op, ast.Not):
                         negd = not negd
                         t = t.operand
-                    if isinstance(t, ast.Name) and t.id == 'validated' and lab in ('true', 'false'):
+                    if isinstance(t, ast.Name) and t.id in self.certs and lab in ('true', 'false'):
                         validated_truthy = (lab == 'true') != negd
                         if validated_truthy:
                             res[lab] = frozenset((k, v) for k, v in new.items() if k != 'idx')
